@@ -55,6 +55,19 @@ var c01RoundTrip = probe.Define("C01", "roundtrip", func(t *rapid.T) protIn { re
 		if d := model.Diff(in.Msg, got); d != "" {
 			return probe.Fail("unprotect(protect(m)) on one SA object != m: %s", d)
 		}
+		// two holders of the same keys that both send in this direction: what the second one protects, the first one
+		// (which has protected messages itself) must unprotect when it acts in the opposite role
+		w3, _, _, err := libProtect(in.Msg, saR, in.SendI, nil)
+		if err != nil {
+			return probe.Fail("EncodeEncrypt on the second holder's SA object: %v", err)
+		}
+		got, err = libUnprotect(w3, saS, !in.SendI, in.WithHdr)
+		if err != nil {
+			return probe.Fail("a holder that has protected messages itself cannot unprotect the other holder's message (same keys, opposite role): %v", err)
+		}
+		if d := model.Diff(in.Msg, got); d != "" {
+			return probe.Fail("unprotect by a holder that has protected messages itself != m: %s", d)
+		}
 		labels := append(suiteLabels(in), in.Msg.Labels()...)
 		if len(in.Entropy) > 0 {
 			labels = append(labels, "entropy:injected")
